@@ -75,6 +75,12 @@ prop('C09', prefix=['c09'],
             'are not demanded; texts the parser rejects are skipped',
      outside='deeper trees, other functions, LAMBDA/LET, implicit intersection and spill operators, numbers that print in scientific notation, the xlsx export form, '
              'other languages/locales')
+prop('C10', prefix=['c10'],
+     bounds='one sheet with A1 = 1.5 and four formulas typed in English (SUM/IF with a decimal literal, AND/TRUE with a comparison, * and & with a string, '
+            'IFERROR/MAX over a division by zero); the display language switched to de / es / fr / it (solver chooses) and/or the locale to de (hand-built), '
+            'then what is shown typed back there, then switched back; language tables are the engine\'s own (native probe)',
+     outside='defined names, the other locales (their tables are a bitcode blob: only en and a hand-built de exist in the encoding), functions whose '
+             'result depends on the locale, formulas and numbers beyond the four listed, dates')
 prop('C11', prefix=['c11'],
      bounds='every ASCII string of length <=3 through the real formula lexer in A1 and R1C1 mode (en locale/language) until EOF; `$` + 1..=10 arbitrary upper-case letters + `1` through the lexer; every ASCII string of length <=3 through the real formula parser (A1 mode; R1C1 mode in the thorough tier; function names looked up in the real English table); and through the '
             'number-format lexer + parser and the date-format detector; length <=4 through column_to_number, parse_reference_a1/r1c1, is_valid_identifier, '
